@@ -167,6 +167,20 @@ def generate(seed, tier="quick"):
             {"t": "stmt", "text": "_oz = [1, {'k': 2}]"},
             {"t": "stmt", "text": "rec('idz', lambda: snapshot_alias(_oz) is _oz)"},
             {"t": "stmt", "text": "rec('idz2', lambda: len(snapshot_alias([1, 2])) == 2)"}]})
+    irng = sub(seed, "is-subsnapshot")
+    if irng.random() < 0.2:
+        # Is() inside a dict whose sub-snapshot is first only fetched (not compared) and compared on later evaluations of the same call,
+        # the Is() value changing between the evaluations: every comparison sees the current value, like the plain dict would
+        f = prog["files"][0]
+        f["sites"]["isq"] = {"op": "item", "place": "func", "arg": '{"id": Is(G["v"]), "name": "x"}', "prev": None, "wrapped": True}
+        a, b, c = irng.sample(range(1, 9), 3)
+        f["tests"].append({"name": "test_is_subsnapshot", "events": [
+            {"t": "stmt", "text": f"set_g({a})"},
+            {"t": "stmt", "text": "rec('isq_a', lambda: get_isq()['id'] is not None)"},
+            {"t": "stmt", "text": f"set_g({b})"},
+            {"t": "stmt", "text": f"rec('isq_b', lambda: {b} == get_isq()['id'])", "expect_true": "isq_b"},
+            {"t": "stmt", "text": f"set_g({c})"},
+            {"t": "stmt", "text": f"rec('isq_c', lambda: get_isq()['id'] == {c})", "expect_true": "isq_c"}]})
     orng = sub(seed, "outside")
     outside = orng.random() < 0.3
     if outside:
@@ -311,6 +325,14 @@ def execute(case, ctx):
                         ctx.count("probe_identity_after_xfail_test")
                     if drec.get(eid) != [True]:
                         viol("identity-when-disabled", f"snapshot(v)-is-not-v:{route}", f"{eid}: {drec.get(eid)}")
+                if e.get("t") == "stmt" and e.get("expect_true"):
+                    eid = e["expect_true"]
+                    ctx.count("probe_Is_in_sub_snapshot_compared_after_access_only_evaluation")
+                    if arec.get(eid) != [True]:
+                        viol("active-equals-plain", "item:active-answer-differs-from-plain-value:Is-in-sub-snapshot-after-access-only-evaluation",
+                             f"{eid}: plain python answers [True], the active session ({adrv}, no flags) answered {arec.get(eid)}\n{files[f['name']][:1500]}")
+                    if drec is not None and route in ("flag", "ci") and drec.get(eid) != [True]:
+                        viol("disabled-equals-plain", f"item:disabled-answer-differs-from-plain-value:{route}:Is-in-sub-snapshot", f"{eid}: plain [True], disabled session answered {drec.get(eid)}")
                 if e.get("t") == "stmt" and e["text"].startswith("rec('exq"):
                     eid = e["text"].split("'")[1]
                     ctx.count("probe_outer_snapshot_compared_by_run_inline")
